@@ -28,6 +28,9 @@ type fstate struct {
 	everUnpinned bool // was pinned and unpinned since the upload
 	cached       bool // retrieved from the network (request mode) at some point
 	pinned       bool // root pin set through the API
+	// the file already had a cache entry (it had been retrieved, possibly in part) when it was
+	// uploaded: the upload leaves that entry in place
+	cachedBeforeUpload bool
 }
 
 // four shards so the orchestrator can run them as parallel child processes
@@ -165,6 +168,17 @@ func histories(t *testing.T, shard int) {
 						key := "uploaded-chunk-evicted"
 						// the chunk lost its protection through the unpin of an uploaded file that
 						// contains it (f itself or another file sharing the chunk)
+						// ... or every uploaded file containing it was a cached file when it was uploaded
+						// (the upload completed a partly retrieved file and left its cache entry)
+						allCachedBefore := true
+						for gi, g := range files {
+							if st[gi].uploaded && g.Chunks[ch] && !st[gi].cachedBeforeUpload {
+								allCachedBefore = false
+							}
+						}
+						if allCachedBefore {
+							key = "uploaded-chunk-of-file-with-earlier-cache-entry-evicted"
+						}
 						for gi, g := range files {
 							if st[gi].uploaded && st[gi].everUnpinned && g.Chunks[ch] {
 								key = "uploaded-evicted-after-unpin"
@@ -214,9 +228,20 @@ func histories(t *testing.T, shard int) {
 			fi := rng.Intn(len(files))
 			f := files[fi]
 			var o opRec
-			x := rng.Intn(13)
+			x := rng.Intn(14)
 			if s, _ := fsim.Dump(w.N); s.GCSize > s.Target && rng.Intn(2) == 0 {
-				x = 12 // collection is due: go to the collection branch (parked variant first)
+				x = 13 // collection is due: go to the collection branch (parked variant first)
+			}
+			// directed start of every third history: the first file is retrieved only in part and
+			// one of its stored data chunks is pinned on its own; it is the oldest cache entry, i.e.
+			// the first candidate of the first collection run
+			directed := i%3 == 0 && len(files[0].Leaves) > 1
+			forceSome := false
+			if directed && k < 2 {
+				fi, f = 0, files[0]
+				x = []int{2, 11}[k]
+				forceSome = k == 0
+				run.Stat("directed_partial_file_with_single_pinned_chunk_steps", 1)
 			}
 			switch {
 			case x < 2:
@@ -233,13 +258,17 @@ func histories(t *testing.T, shard int) {
 						firstStoredByUpload[ch] = true
 					}
 				}
+				if _, had := before.GC[f.Root.String()]; had && !st[fi].uploaded {
+					st[fi].cachedBeforeUpload = true
+					run.Stat("uploads_of_files_with_a_cache_entry", 1)
+				}
 				st[fi].uploaded = true
 				if pin {
 					st[fi].pinned = true
 				}
 				classes["up"] = true
 			case x < 7:
-				full := rng.Intn(8) == 0
+				full := rng.Intn(8) == 0 && !forceSome
 				o = opRec{Op: "cache", File: fi, Arg: fmt.Sprint("full=", full)}
 				hist = append(hist, o)
 				var err error
@@ -249,6 +278,13 @@ func histories(t *testing.T, shard int) {
 					idx := make([]int, len(f.Leaves))
 					for j := range idx {
 						idx[j] = j
+					}
+					if (forceSome || rng.Intn(3) == 0) && len(idx) > 1 {
+						// only some of the data chunks arrive: the file stays partly stored
+						rng.Shuffle(len(idx), func(a, b int) { idx[a], idx[b] = idx[b], idx[a] })
+						idx = idx[:1+rng.Intn(len(idx)-1)]
+						hist[len(hist)-1].Arg = fmt.Sprint("some=", idx)
+						run.Stat("partial_retrievals", 1)
 					}
 					err = w.CacheChunks(f, idx)
 				}
@@ -283,6 +319,29 @@ func histories(t *testing.T, shard int) {
 					st[fi].pinned = false
 					classes["unpin"] = true
 				}
+			case x == 11 || x == 12:
+				// pin ONE stored data chunk of the file through POST /chunks with the pin header
+				s, _ := fsim.Dump(w.N)
+				var cand []int
+				for li, lf := range f.Leaves {
+					if s.Present[lf] {
+						cand = append(cand, li)
+					}
+				}
+				if len(cand) == 0 {
+					continue
+				}
+				li := cand[rng.Intn(len(cand))]
+				off := li * fsim.CS
+				end := off + fsim.CS
+				if end > len(f.Data) {
+					end = len(f.Data)
+				}
+				code := w.N.UploadChunk(append(spec.Span(uint64(end-off)), f.Data[off:end]...), true)
+				o = opRec{Op: "pin-chunk", File: fi, Arg: fmt.Sprintf("data chunk %d via POST /chunks", li), Note: fmt.Sprint("status=", code)}
+				hist = append(hist, o)
+				run.Stat("single_chunk_pins", 1)
+				classes["pinchunk"] = true
 			case x < 11:
 				o = opRec{Op: "read", File: fi}
 				hist = append(hist, o)
